@@ -685,7 +685,7 @@ pub fn blocking_clause(a: &Analysis, v: &mut Verdict, prop: &str) {
         }
         let exempt = matches!(
             a.case.ops[o].op,
-            Op::Flush | Op::Cycle | Op::Stats | Op::Join { .. } | Op::Spawn { .. } | Op::SetReporter { .. } | Op::ThreadEnd
+            Op::Flush | Op::Cycle | Op::Stats | Op::Join { .. } | Op::Spawn { .. } | Op::SetReporter { .. } | Op::ReplaceReporter { .. } | Op::ThreadEnd
         );
         if exempt {
             continue;
